@@ -155,6 +155,12 @@ def text_meta(n, cs=0, tb=1):
     return [1, tb, n] + [(65 + (i * 7) % 26) if cs else (32 + (i * 11) % 224) for i in range(n)]
 
 
+def _assign_data(mido, value):
+    m = mido.MetaMessage('sequencer_specific', data=[1])
+    m.data = value
+    return m
+
+
 def ill_typed_and_limit(out, rng):
     """implementation against the statement, for values the integer wire cannot carry: (a) items and attribute values that are not
     integers (floats, also integral ones, Fraction, str, None, bool stays an int) at every position of a sequencer_specific payload and on
@@ -197,6 +203,26 @@ def ill_typed_and_limit(out, rng):
                     m.data = data
                     return m
                 judge('sequencer_specific.data = %r' % (data,), assign)
+    # one-shot iterables as the payload (constructor, assignment, copy): accepted means the items arrive, all of them
+    import itertools
+    for items in ([1, 2, 3], [0, 255], [], [7] * 40):
+        for what, mk in (('iter', lambda: iter(items)), ('generator', lambda: (b for b in items)), ('chain', lambda: itertools.chain(items[:1], items[1:])),
+                         ('map', lambda: map(int, items)), ('reversed', lambda: reversed(items[::-1])), ('range', lambda: range(len(items))), ('bytes', lambda: bytes(items))):
+            want = tuple(items) if what != 'range' else tuple(range(len(items)))
+            for route, build in (('constructor', lambda: mido.MetaMessage('sequencer_specific', data=mk())),
+                                 ('assignment', lambda: _assign_data(mido, mk())),
+                                 ('copy', lambda: mido.MetaMessage('sequencer_specific', data=[5]).copy(data=mk()))):
+                n += 1
+                try:
+                    m = build()
+                except (ValueError, TypeError):
+                    continue
+                except Exception as e:  # noqa: BLE001
+                    out.failures.append(('check-raises:' + type(e).__name__, 'sequencer_specific data from a %s (%s) raised %r' % (what, route, e), {'component': 'ill-typed'}))
+                    continue
+                if tuple(m.data) != want or m.bytes()[-len(want):] != list(want)[-len(want):] and want:
+                    out.failures.append(('iterable-payload-lost', 'sequencer_specific data given as a %s over %r (%s) arrived as %r' % (what, items[:6], route, tuple(m.data)[:6]),
+                                         {'component': 'ill-typed', 'what': what, 'route': route}))
     ints = [('set_tempo', 'tempo'), ('sequence_number', 'number'), ('channel_prefix', 'channel'), ('midi_port', 'port'), ('time_signature', 'numerator'),
             ('time_signature', 'clocks_per_click'), ('smpte_offset', 'minutes'), ('smpte_offset', 'sub_frames')]
     for typ, attr in ints:
